@@ -134,6 +134,10 @@ def snapshot(detector) -> dict:
     except Exception as exc:  # noqa: BLE001
         snap["scene_tree"] = None
     try:
+        snap["data_tree"] = detector.data.copy(deep=True) if detector._data is not None else None
+    except Exception as exc:  # noqa: BLE001
+        snap["data_tree"] = None
+    try:
         snap["data_empty"] = bool(detector.data.is_empty)
     except Exception as exc:  # noqa: BLE001
         snap["data_empty"] = f"error {exc!r}"
@@ -269,6 +273,9 @@ def writer2(detector, **kwargs) -> None:
     if "data" in names:
         arr = gen_array(detector.geometry.shape, "float64", (seed, step, 9))
         detector.data[f"/probe/step{step}"] = xr.DataArray(arr, dims=["y", "x"])
+        # metadata-only content: attributes on the parent group and a group that carries attributes but no variable
+        detector.data["/probe"].attrs["last_step"] = step
+        detector.data[f"/meta/step{step}"] = xr.DataTree(xr.Dataset(attrs={"seed": int(seed), "step": step}))
     if "clusters" in names:
         # charge through the cluster interface (as the cosmic-ray models do), inside the sensitive area
         rows, cols = detector.geometry.shape
